@@ -63,7 +63,7 @@ P = {
             "Partial: comment skipping as a separate lemma and the downstream relabelling lemma are not theorems; every base file is compared with random re-layouts (all 25 White_Space characters, CR/LF, comments) modulo digest and position→token-index map.",
             "§7 C16", "scanner theorems + re-layout differential"),
     "C17": ("proof", "Theorems, for every validated file for which the generator stages succeed: the item sets of the generated automaton, lookaheads included, are exactly the least fixed point of the LALR(1) propagation rules over its transition graph — augmented initial item with end of input; [B → ·γ, b] for every b ∈ FIRST(β a) in the state of [A → α·Bβ, a]; the dot moved along transitions, contributions of all predecessor states united (C17_items_exact); no two states have the same core and transitions are functional (C17_one_state_per_core); an ACTION cell is non-error iff an item of its state demands it there (reduce exactly on the item's lookaheads, accept on end of input, shift to the transition target), GOTO cells are exactly the nonterminal transitions, Err/None elsewhere (C17_cells, C17_empty_table). The FIRST map used by the rules is proved closed under the FIRST equations (complete) and sound (every terminal in FIRST(B) begins a sentential form derived from B; nullable marks are true). "
-            That is the textbook definition: the generated automaton is the canonical LR(1) collection merged by core — every canonical state lies inside exactly one machine state with the same cores, every item of a machine state (lookahead included) lies in a canonical state with that core, every machine state merges at least one canonical state (C17_is_lalr1, Proofs/Canonical). "
+            "That is the textbook definition: the generated automaton is the canonical LR(1) collection merged by core — every canonical state lies inside exactly one machine state with the same cores, every item of a machine state (lookahead included) lies in a canonical state with that core, every machine state merges at least one canonical state (C17_is_lalr1, Proofs/Canonical). "
             "Residue: termination (fuel) and the name↔rank coding; independently, tables read back from the emitted text are compared, modulo the renumbering from the start state, with the tables of an independent specification-side LALR(1) construction on every accepted grammar.",
             "§6.2, §6.3, §7 C17", "generated automaton = canonical LR(1) merged by core, exact cells, for every grammar + LALR(1) table oracle on emitted text"),
     "C18": ("proof", "Full: for every history of new/from_iter/insert/extend over any type with a lawful total order: strictly ascending vector, membership = the mathematical set, contains decides membership, iteration yields each element once ascending, equal element sets ⇒ equal vectors (C18_sorted, _refines, _contains, _iter, _ext). "
